@@ -88,11 +88,15 @@ func (r *run) yieldOn(what string, objs []any, block func() bool) {
 		me.blocked = nil
 		return
 	}
+	// r.intrFn (the intrinsic being executed, read by models after their scheduling point) is per run, not per
+	// thread: another thread's intrinsic call overwrites it while this one is parked
+	intrFn := r.intrFn
 	s.cur = next
 	next.resume <- struct{}{}
 	r.park(me)
 	// resumed: we are current again and enabled by construction
 	me.blocked = nil
+	r.intrFn = intrFn
 }
 
 // pickNext chooses the thread to run at a scheduling point (me == nil when the current thread has exited).
